@@ -217,6 +217,24 @@ func c09Case(c *core.Ctx, r *core.Rand, mt protoreflect.MessageType, name string
 			continue
 		}
 		c.Count("discard_walks")
+		// before anything expands lazily kept submessages: what Marshal emits must be free of unknown fields too
+		if enc, err := (proto.MarshalOptions{AllowPartial: true}).Marshal(m.Interface()); err == nil {
+			chk := newOf(mt, false)
+			if err := (proto.UnmarshalOptions{AllowPartial: true, NoLazyDecoding: true}).Unmarshal(enc, chk.Interface()); err != nil {
+				c.Violation("unknown:discard-marshal-undecodable:"+name, detail("output", core.Hex(enc), "err", errStr(err)))
+			} else if cs := snapOf(chk); cs.HasUnknownAnywhere() {
+				where := ""
+				cs.Walk(func(x *model.Snap) {
+					if len(x.Unknown) > 0 && where == "" {
+						where = x.Type
+					}
+				})
+				c.Violation(fmt.Sprintf("unknown:discard-marshal-reemits-unknown:dyn=%v:in=%s", variant.dyn, where), detail("nolazy", variant.nolazy, "output", core.Hex(enc)))
+			}
+			if sz := (proto.MarshalOptions{AllowPartial: true}).Size(m.Interface()); sz != len(enc) {
+				c.Count("discard_size_differs_from_len")
+			}
+		}
 		s := snapOf(m)
 		if s.HasUnknownAnywhere() {
 			where := ""
